@@ -3,6 +3,7 @@
 //! Writes protocol lines (see lean/Driver/Proto.lean) to stdout.
 mod common;
 mod fx;
+mod fxcache;
 mod fxcommon;
 mod fxmain;
 mod ledger;
